@@ -17,7 +17,7 @@ PROPERTY = "C12"
 # CODE VARIANT FLAGS (value = today's code; see Model/Progress.lean `Cfg.clockOutside`)
 # 1: Progress.advance / Progress.reset call get_time() before `with self._lock`   (rich 9.10.0)
 # 0: the read is the first statement under the lock (pending_fixes/C12-clock-read-under-lock.diff)
-CLOCK_OUTSIDE = 1
+CLOCK_OUTSIDE = 0
 
 MAXLEN = 1000  # the literal in `while len(_progress) > 1000`
 
